@@ -110,6 +110,45 @@ def phases(ctx):
             msg='build_metamodel is not `m = MetaModel(id_generator); self.populate(m); return m`')
 
 
+def _jumps(body):
+    return bool(body) and isinstance(body[-1], (ast.Continue, ast.Break, ast.Return, ast.Raise))
+
+
+def _guards(body, target):
+    """the tests that decide whether `target` (a node inside the statement list `body`) is reached from the top of `body`"""
+    out = []
+    for st in body:
+        inside = any(n is target for n in ast.walk(st))
+        if inside:
+            if isinstance(st, ast.If):
+                if any(n is target for b in st.body for n in ast.walk(b)):
+                    return out + [st.test] + _guards(st.body, target)
+                if any(n is target for b in st.orelse for n in ast.walk(b)):
+                    return out + [st.test] + _guards(st.orelse, target)
+                return out + [st.test]
+            if isinstance(st, (ast.For, ast.While)):
+                return out + [st.iter if isinstance(st, ast.For) else st.test] + _guards(st.body, target)
+            if isinstance(st, ast.Try):
+                for blk in [st.body, st.orelse, st.finalbody] + [h.body for h in st.handlers]:
+                    if any(n is target for b in blk for n in ast.walk(b)):
+                        return out + _guards(blk, target)
+            if isinstance(st, ast.With):
+                return out + _guards(st.body, target)
+            return out
+        if isinstance(st, ast.If) and (_jumps(st.body) or _jumps(st.orelse)):
+            out.append(st.test)
+        elif isinstance(st, ast.Try) and any(_jumps(h.body) for h in st.handlers):
+            out.append(st)
+    return out
+
+
+def _is_class_filter(test):
+    t = test
+    while isinstance(t, ast.UnaryOp) and isinstance(t.op, ast.Not):
+        t = t.operand
+    return isinstance(t, ast.Call) and dotted(t.func) == 'isinstance' and len(t.args) == 2
+
+
 def partition(ctx):
     repo = ctx.repo
     r = ctx.rule('C03-PARTITION', 'each statement class is consumed by exactly one pass; every grammar statement builds one of them', floor=8,
@@ -134,6 +173,20 @@ def partition(ctx):
             extra = [n for n in ast.walk(lp) if isinstance(n, (ast.Break,))]
             r.check(not extra, '%s does not stop early' % pname, lp, construct=LD + '.' + pname, key='break',
                     msg='%s breaks out of the statement scan' % pname)
+    # the three definition passes hand EVERY statement of their class to the metamodel: the define_* call is guarded by the class
+    # filter and by nothing else (a pass that drops some statements loses schema that the writer had emitted)
+    for pname, api in (('populate_classes', 'define_class'), ('populate_associations', 'define_association'),
+                       ('populate_unique_identifiers', 'define_unique_identifier')):
+        fn = repo.func(LD + '.' + pname)
+        for lp in [n for n in walk_local(fn) if isinstance(n, ast.For) and pm.match('self.statements', n.iter) is not None]:
+            calls = [n for n in ast.walk(lp) if isinstance(n, ast.Call) and isinstance(n.func, ast.Attribute) and n.func.attr == api]
+            r.check(len(calls) == 1, '%s calls %s once per statement' % (pname, api), lp, construct=LD + '.' + pname, key='define-call',
+                    msg='%s calls %s %d times inside the statement scan' % (pname, api, len(calls)))
+            for c_ in calls:
+                extra = [g for g in _guards(lp.body, c_) if not _is_class_filter(g)]
+                r.check(not extra, '%s reaches %s for every statement of its class' % (pname, api), c_, construct=LD + '.' + pname, key='unguarded ' + api,
+                        msg='%s calls %s only under %s: statements of its class for which this does not hold are dropped silently, '
+                            'the loaded schema is not the one that was written' % (pname, api, [src(g) for g in extra]))
     for c in stmt_classes:
         r.check(len(consumed.get(c, [])) == 1, '%s is consumed by exactly one pass (%s)' % (c, consumed.get(c)), repo.cls('xtuml.load:' + c),
                 construct='xtuml.load:' + c, key='consumed', msg='%s is consumed by %s' % (c, consumed.get(c)))
